@@ -133,11 +133,13 @@ def scratch_package(work, types_py):
     return os.path.dirname(pkg)
 
 
-def run_plugin(plugin, model, work):
+def run_plugin(plugin, model, work, alt=False):
     out, test = os.path.join(work, plugin + "-out"), os.path.join(work, plugin + "-test")
     os.makedirs(out)
     shutil.copytree(os.path.join(common.REPO, "tests", "rust"), test, ignore=shutil.ignore_patterns("target"))
     env = dict(os.environ, PYTHONPATH=common.REPO, PYTHONHASHSEED="0")
+    if alt:       # every second evolved model is generated by another kind of process: python -O, another hash seed
+        env.update(PYTHONOPTIMIZE="1", PYTHONHASHSEED="7")
     p = subprocess.run([common.PY, "-m", "generator", "--model", model, "--plugin", plugin, "--output-dir", out, "--test-dir", test],
                        cwd=common.REPO, env=env, stdout=subprocess.PIPE, stderr=subprocess.STDOUT, timeout=1800)
     return p.returncode, p.stdout.decode()[-1200:], out
@@ -170,7 +172,7 @@ def one_model(args):
         # 2. the four plugins
         outs = {}
         for plugin in ("python", "rust", "dotnet"):
-            rc, log, o = run_plugin(plugin, mpath, work)
+            rc, log, o = run_plugin(plugin, mpath, work, alt=idx % 2 == 1)
             if rc != 0:
                 fail(plugin, "G_plugin_failed", plugin, log[-600:])
             else:
@@ -219,7 +221,7 @@ def one_model(args):
         sub = vector_submodel(evolved, script)
         spath = os.path.join(work, "sub.json")
         json.dump(sub, open(spath, "w"))
-        rc, log, o = run_plugin("testdata", spath, work)
+        rc, log, o = run_plugin("testdata", spath, work, alt=idx % 2 == 1)
         if rc != 0:
             fail("testdata", "G_plugin_failed", "testdata", log[-600:])
         elif "python" in outs:
